@@ -400,7 +400,7 @@ func c10PemStage(env *verifEnv, res *verifResult, corpus []*c10Key, request c10R
 		if pr.s == nil || pr.w == nil {
 			continue
 		}
-		for bi, b := range c10PemBodies(pr.s, pr.w) {
+		for _, b := range c10PemBodies(pr.s, pr.w) {
 			// the block list as encoding/pem delivers it (library code in front of the model)
 			var blocks []string
 			rest := []byte(b.text)
@@ -429,9 +429,6 @@ func c10PemStage(env *verifEnv, res *verifResult, corpus []*c10Key, request c10R
 				if path == "ssh" {
 					continue
 				}
-				if !selecting[path] && !verifThorough() && (bi+int(verifSeed()))%4 != 0 {
-					continue // role / refresh take base64url DER, not PEM: panic recorder only, a rotating quarter
-				}
 				req := request(path, "", b.text, base64.RawURLEncoding.EncodeToString([]byte(b.text)))
 				rr, pan := env.serve(req)
 				cert := verifParseCertBody(rr.Body.Bytes())
@@ -440,6 +437,14 @@ func c10PemStage(env *verifEnv, res *verifResult, corpus []*c10Key, request c10R
 				res.eval(fmt.Sprintf("pem|%s|%s|%d", path, b.note, rr.Code), len(blocks) > 0)
 				res.bump("pem-structure:" + path)
 				cs := map[string]interface{}{"path": path, "shape": b.note, "body": b.text, "keys": pr.s.desc + " / " + pr.w.desc}
+				expectStrong := expectStrong
+				if !selecting[path] {
+					// role / refresh: the parameter is base64url of the DER itself - here of the text's bytes
+					expectStrong = false
+					if pub, err := x509.ParsePKIXPublicKey([]byte(b.text)); err == nil {
+						expectStrong = c10Strong(pub)
+					}
+				}
 				if pan {
 					res.hit(verifHit{Key: "C10:panic:" + path, Oracle: "panic", What: fmt.Sprintf("path %s panicked on a PEM text (%s)", path, b.note), Case: cs})
 				}
